@@ -13,20 +13,25 @@ JCCF = "yield,bwait,bpost,join+1,join+2,cancel+1,cancel+2,createY,createW,joinc,
 # (tag, alphabet, routines, max script length, max main-context actions (resume/cancel/cleanup) per run, param, processes[, max total steps])
 # param: initial semaphore count; for Condition 0 = Logic::kAll, 1 = Logic::kAny
 QUICK = [
-    ("ch", CH, 3, 3, 1, 0, 4), ("mu", MU, 3, 3, 1, 0, 4), ("sem0", SEM, 3, 3, 1, 0, 4), ("sem1", SEM, 3, 3, 1, 1, 4), ("bc", BC, 3, 3, 1, 0, 4),
-    ("mu-len4", MU, 3, 4, 0, 0, 4, 8), ("ch-len4", CH, 3, 4, 0, 0, 2, 8), ("sem0-len4", SEM, 3, 4, 0, 0, 2, 8),
-    ("ch-2acts", CH, 3, 2, 2, 0, 2), ("mu-2acts", MU, 3, 2, 2, 0, 2), ("sem-2acts", SEM, 3, 2, 2, 0, 2),
-    ("condAll", COND, 3, 2, 2, 0, 4), ("condAny", COND, 3, 2, 2, 1, 4), ("condAll-2r", COND, 2, 3, 1, 0, 2), ("condAny-2r", COND, 2, 3, 1, 1, 2),
-    ("mix", MIX, 3, 2, 0, 0, 2), ("mix-2r", MIX, 2, 2, 2, 0, 4), ("jcc3", JCC3, 3, 2, 1, 0, 12), ("jcc2", JCC2, 2, 2, 2, 0, 4),
+    ("ch", CH, 3, 3, 1, 0, 2, 7), ("mu", MU, 3, 3, 1, 0, 2, 7), ("sem0", SEM, 3, 3, 1, 0, 2, 7), ("sem1", SEM, 3, 3, 1, 1, 2, 7), ("bc", BC, 3, 3, 1, 0, 2, 7),
+    ("mu-len4", MU, 3, 4, 0, 0, 4, 8), ("ch-len4", CH, 3, 4, 0, 0, 4, 8), ("sem0-len4", SEM, 3, 4, 0, 0, 4, 8),
+    ("ch-2acts", CH, 3, 2, 2, 0, 2), ("mu-2acts", MU, 3, 2, 2, 0, 2), ("sem-2acts", SEM, 3, 2, 2, 0, 2), ("bc-2acts", BC, 3, 2, 2, 0, 2),
+    ("condAll", COND, 3, 2, 1, 0, 2), ("condAny", COND, 3, 2, 1, 1, 2), ("condAll-2r", COND, 2, 3, 1, 0, 2), ("condAny-2r", COND, 2, 3, 1, 1, 2),
+    ("condAll-2r-2acts", COND, 2, 2, 2, 0, 1), ("condAny-2r-2acts", COND, 2, 2, 2, 1, 1),
+    ("mix", MIX, 3, 2, 0, 0, 4), ("mix-2r", MIX, 2, 2, 2, 0, 4), ("jcc3", JCC3, 3, 2, 1, 0, 8, 5), ("jcc2", JCC2, 2, 2, 2, 0, 8),
 ]
 THOROUGH = [
-    ("ch-len4", CH, 3, 4, 1, 0, 48), ("mu-len4", MU, 3, 4, 1, 0, 48), ("sem0-len4", SEM, 3, 4, 1, 0, 48), ("sem1-len4", SEM, 3, 4, 1, 1, 48), ("bc-len4", BC, 3, 4, 1, 0, 48),
-    ("ch-2acts", CH, 3, 3, 2, 0, 16), ("mu-2acts", MU, 3, 3, 2, 0, 16), ("sem0-2acts", SEM, 3, 3, 2, 0, 16), ("sem1-2acts", SEM, 3, 3, 2, 1, 16), ("bc-2acts", BC, 3, 3, 2, 0, 16),
-    ("ch-len4-2acts", CH, 3, 4, 2, 0, 48, 8), ("mu-len4-2acts", MU, 3, 4, 2, 0, 48, 8), ("sem0-len4-2acts", SEM, 3, 4, 2, 0, 48, 8),
-    ("condAll", COND, 3, 3, 1, 0, 16), ("condAny", COND, 3, 3, 1, 1, 16), ("condAll-2acts", COND, 3, 2, 2, 0, 4), ("condAny-2acts", COND, 3, 2, 2, 1, 4),
-    ("bcc", BCC, 3, 2, 2, 0, 16),
-    ("mix", MIX, 3, 2, 2, 0, 32), ("jcc3", JCC3, 3, 2, 2, 0, 32), ("jccf", JCCF, 3, 2, 1, 0, 48),
-    ("jcc2", JCC2, 2, 3, 1, 0, 16), ("jcc2-2acts", JCC2, 2, 2, 2, 0, 4),
+    # script length 4, every program, no main-context action; with one action for programs of <= 9 steps in total
+    ("ch-len4", CH, 3, 4, 0, 0, 16), ("mu-len4", MU, 3, 4, 0, 0, 16), ("sem0-len4", SEM, 3, 4, 0, 0, 16), ("sem1-len4", SEM, 3, 4, 0, 1, 16), ("bc-len4", BC, 3, 4, 0, 0, 16),
+    ("ch-len4-1act", CH, 3, 4, 1, 0, 32, 9), ("mu-len4-1act", MU, 3, 4, 1, 0, 32, 9), ("sem0-len4-1act", SEM, 3, 4, 1, 0, 32, 9), ("sem1-len4-1act", SEM, 3, 4, 1, 1, 32, 9), ("bc-len4-1act", BC, 3, 4, 1, 0, 32, 9),
+    # script length 3, every program, up to two actions
+    ("ch-2acts", CH, 3, 3, 2, 0, 32), ("mu-2acts", MU, 3, 3, 2, 0, 32), ("sem0-2acts", SEM, 3, 3, 2, 0, 32), ("bc-2acts", BC, 3, 3, 2, 0, 32), ("sem1-1act", SEM, 3, 3, 1, 1, 8),
+    ("mu-len4-2acts", MU, 3, 4, 2, 0, 32, 7),
+    ("condAll", COND, 3, 3, 1, 0, 16, 7), ("condAny", COND, 3, 3, 1, 1, 16, 7), ("condAll-2acts", COND, 3, 2, 2, 0, 8), ("condAny-2acts", COND, 3, 2, 2, 1, 8),
+    ("bcc", BCC, 3, 2, 1, 0, 8),
+    ("mix", MIX, 3, 2, 1, 0, 16), ("mix-2r", MIX, 2, 3, 1, 0, 16), ("jcc3", JCC3, 3, 2, 1, 0, 16), ("jcc3-2acts", JCC3, 3, 2, 2, 0, 16, 4),
+    ("jccf", JCCF, 3, 2, 1, 0, 16, 4), ("jccf-0act", JCCF, 3, 2, 0, 0, 16, 5),
+    ("jcc2", JCC2, 2, 3, 1, 0, 32), ("jcc2-2acts", JCC2, 2, 2, 2, 0, 8),
 ]
 ASAN_INFO = [("asan-ch", CH, 3, 2, 1, 0, 2), ("asan-mu", MU, 3, 3, 0, 0, 2), ("asan-sem", SEM, 3, 2, 1, 0, 2), ("asan-bc", BC, 3, 2, 1, 0, 2),
              ("asan-cond", COND, 3, 2, 0, 0, 2), ("asan-jcc2", JCC2, 2, 2, 1, 0, 2)]
@@ -49,11 +54,13 @@ def main(tier, args):
     plain = vf.build("C18/coro_plain", [H], srcs, mode="plain", plain_srcs=stub)
     asan = vf.build("C18/coro_asan", [H], srcs, mode="asan", plain_srcs=stub)
     cfgs = QUICK if tier == "quick" else THOROUGH
+    t_build = time.time() - t0
     budget = float(os.environ.get("VERIF_DEADLINE_S", "85" if tier == "quick" else "1300"))
     env = {"C18_DEADLINE_AT": "%.0f" % (t0 + budget), "VERIF_DEADLINE_S": str(budget)}
     res = vf.Result(); log = open(vf.BUILD + "/C18/log.txt", "w")
     # verdict: plain build (reference model + invariants)
     vf.run_procs(res, cmds(plain, cfgs, args.only), env=env, log=log)
+    t_plain = time.time() - t0 - t_build
     # ASan+UBSan build: information only (ASan warns about swapcontext false positives on this image)
     if not args.only:
         info = vf.Result()
@@ -65,6 +72,7 @@ def main(tier, args):
             res.infos.append("asan-build: " + i[:300])
         for e in info.errors[:3]:
             res.infos.append("asan-build harness error (ignored for the verdict): " + e[:300])
+    res.infos.append("wall: build %.1fs, plain enumeration %.1fs, asan information run %.1fs" % (t_build, t_plain, time.time() - t0 - t_build - t_plain))
     desc = "; ".join("%s{%s} nr=%d len<=%d acts<=%d param=%d" % c[:6] + (" total<=%d" % c[7] if len(c) > 7 else "") for c in cfgs)
     vf.finish(PID, tier, res, t0,
               rule="every program of <=3 routines x every script of <= len ops over the family alphabet (families enumerated exhaustively: " + desc + ") "
